@@ -54,29 +54,22 @@ fn cfg(name: String, widths: &[u16], old: usize, initial: &[(u64, u64)], pre_sam
 fn cfgs(quick: bool) -> Vec<(Cfg, usize)> {
     let limits: [(usize, usize); 4] = [(1, 0), (1, 1), (2, 1), (3, 5)];
     let mut v = vec![];
-    let all = !quick;
+    let a_cfg = |l: usize, a: usize, all: bool| cfg(format!("A-old2-1to4-l{l}+{a}"), &[2; 6], 2, &[(1, 4)], &[], l, a, full_menu(vec![2, 3, 4], vec![4], all), None);
+    let b_cfg = |l: usize, a: usize, all: bool| cfg(format!("B-gap-l{l}+{a}"), &[2; 6], 1, &[(1, 2), (4, 5)], &[4], l, a, full_menu(vec![2, 5], vec![5], all), None);
+    let c_cfg = |l: usize, a: usize, all: bool| {
+        cfg(format!("C-ratelimited-l{l}+{a}"), &[2; 6], 0, &[(1, 5)], &[], l, a, full_menu(vec![3], vec![4, 6], all), Some((4, 512)))
+    };
     for (l, a) in limits {
         // A: heights 1,2 older than the window; 1..=4 stored, 5 and 6 arrive later
-        v.push((cfg(format!("A-old2-1to4-l{l}+{a}"), &[2; 6], 2, &[(1, 4)], &[], l, a, full_menu(vec![2, 3, 4], vec![4], all), None), 2));
+        v.push((a_cfg(l, a, true), 2));
     }
     for (l, a) in limits {
-        let deep = !quick || (l, a) == (1, 1) || (l, a) == (2, 1);
         // B: a gap (3 missing, backfilled later), 4 already sampled, 6 arrives later
-        v.push((
-            cfg(format!("B-gap-l{l}+{a}"), &[2; 6], 1, &[(1, 2), (4, 5)], &[4], l, a, full_menu(vec![2, 5], vec![5], all), None),
-            if deep { 2 } else { 1 },
-        ));
+        v.push((b_cfg(l, a, true), 2));
         // C: the pruner already reports "everything up to 4 is prunable, backlog 512"
-        v.push((
-            cfg(format!("C-ratelimited-l{l}+{a}"), &[2; 6], 0, &[(1, 5)], &[], l, a, full_menu(vec![3], vec![4, 6], all), Some((4, 512))),
-            if deep { 2 } else { 1 },
-        ));
+        v.push((c_cfg(l, a, true), 2));
     }
     if !quick {
-        // D: three deviations on the smallest interesting system
-        for (l, a) in [(1usize, 1usize), (2, 1)] {
-            v.push((cfg(format!("D-deep-l{l}+{a}"), &[2; 4], 1, &[(1, 3)], &[], l, a, full_menu(vec![2], vec![3], false), None), 3));
-        }
         // E: a longer chain with two stored ranges and mixed widths
         for (l, a) in [(2usize, 1usize), (3, 5)] {
             v.push((
@@ -84,6 +77,20 @@ fn cfgs(quick: bool) -> Vec<(Cfg, usize)> {
                 2,
             ));
         }
+        // D: three deviations on the smallest interesting system
+        for (l, a) in [(1usize, 1usize), (2, 1)] {
+            v.push((cfg(format!("D-deep-l{l}+{a}"), &[2; 4], 1, &[(1, 3)], &[], l, a, full_menu(vec![2], vec![3], false), None), 3));
+        }
+        // three deviations on the quick systems (oldest/newest answer positions)
+        let mut c = c_cfg(1, 1, false);
+        c.name += "-deep";
+        v.push((c, 3));
+        let mut b = b_cfg(1, 1, false);
+        b.name += "-deep";
+        v.push((b, 3));
+        let mut a = a_cfg(2, 1, false);
+        a.name += "-deep";
+        v.push((a, 3));
     }
     v
 }
@@ -110,7 +117,16 @@ fn main() {
                 eprintln!("machinery problem after a violation: {e}");
                 break;
             }
-            eprintln!("cfg {} done in {:.1}s (evaluations so far {})", cfg.name, t.elapsed().as_secs_f64(), rep.evaluations);
+            let (ok, to) = {
+                let s = stats.lock().unwrap();
+                (s.get("block-all-shares-ok").copied().unwrap_or(0), s.get("block-timed-out").copied().unwrap_or(0))
+            };
+            eprintln!(
+                "cfg {} done in {:.1}s (evaluations so far {}, blocks ok/timed-out so far {ok}/{to})",
+                cfg.name,
+                t.elapsed().as_secs_f64(),
+                rep.evaluations
+            );
         }
         merge_stats(&stats, &mut rep);
     }
@@ -118,7 +134,7 @@ fn main() {
         &ctx,
         rep,
         Spec {
-            rule: "E3: real Daser over InMemoryStore + mocked P2p; (limit, allowance) in {(1,0),(1,1),(2,1),(3,5)} x stores {A: heights 1..=4 stored, 1-2 older than the window, heads 5,6 arriving; B: 1-2 and 4-5 stored (3 backfilled later), 4 pre-sampled, head 6 arriving; C: 1..=5 stored with preset pruner reports highest=4, backlog=512}; events: answer the oldest/newest (quick) or any (thorough) outstanding request of any block in progress with a valid sample / RequestTimedOut, insert next head, backfill below the newest range, disconnect/reconnect, WantToPrune(h) and removal of granted heights, UpdateHighestPrunableHeight(v), UpdateNumberOfPrunableBlocks in {0,511,512}, advance clock 61 s / 5 h; every event sequence with <= 2 deviations (quick: B and C only 1 for the limits (1,0) and (3,5); thorough adds D: 3 stored of 4 heights, <= 3 deviations, and E: 8 heights of widths 2/4 in two stored ranges, <= 2 deviations) from the default (answer the oldest request successfully, then insert the next head) is executed; the oracle runs after every event. distinct = distinct choice sequences; states = distinct observation traces",
+            rule: "E3: real Daser over InMemoryStore + mocked P2p; (limit, allowance) in {(1,0),(1,1),(2,1),(3,5)} x stores {A: heights 1..=4 stored, 1-2 older than the window, heads 5,6 arriving; B: 1-2 and 4-5 stored (3 backfilled later), 4 pre-sampled, head 6 arriving; C: 1..=5 stored with preset pruner reports highest=4, backlog=512}; events: answer any outstanding request of any block in progress with a valid sample / RequestTimedOut, insert next head, backfill below the newest range, disconnect/reconnect, WantToPrune(h) and removal of granted heights, UpdateHighestPrunableHeight(v), UpdateNumberOfPrunableBlocks in {0,511,512}, advance clock 61 s / 5 h; every event sequence with <= 2 deviations (thorough adds E: 8 heights of widths 2/4 in two stored ranges, limits (2,1),(3,5), answers at oldest/newest position only, <= 2 deviations, and <= 3 deviations on D: 3 stored of 4 heights for (1,1),(2,1), and on C(1,1), B(1,1), A(2,1) with answers at oldest/newest position only) from the default (answer the oldest request successfully, then insert the next head) is executed; the oracle runs after every event. distinct = distinct choice sequences; states = distinct observation traces",
             assumptions: &[
                 "wall clock Time::now() is not seamed: header times are 1 h (inside) / 6 h (outside) old against a 4 h sampling window, so the window edge itself is not exercised",
                 "'known stored height' is read as: contained in the last answer the Daser got from Store::get_stored_header_ranges and still stored (headers backfilled below the head do not wake wait_new_head)",
